@@ -187,7 +187,11 @@ func (s *Service) ProcessRequest(ctx *core.Context, m map[string]interface{}, ou
 		return nil, fmt.Errorf("No uri.")
 	}
 
-	uri := DWIMURI(ctx, u.(string))
+	us, isString := u.(string)
+	if !isString {
+		return nil, fmt.Errorf("need a string uri, not a %T", u)
+	}
+	uri := DWIMURI(ctx, us)
 
 	switch uri {
 
